@@ -521,6 +521,9 @@ class ConfigParser(object):
       return False, None
 
     while continue_parsing:
+      if token_value not in ('', '-'):
+        # Adjacent string literals: keep the tokens separate (e.g. `'' 'a'`).
+        token_value += ' '
       token_value += self._current_token.string
 
       try:
